@@ -223,9 +223,11 @@ CHECKS["C02"] = {
         {"pkg": "./pkg/processor", "entry": "VerifC01_SetChange", "reach": ["published", "not-published"], "opts": _PROC_OPTS,
          "shards": {"quick": _c01_sc_q, "thorough": _c01_sc_t}, "timeout": {"quick": 2400, "thorough": 30000}},
         {"pkg": "./pkg/processor", "entry": "VerifC02_GovernanceEmitter", "reach": ["governance", "ordinary"], "opts": _PROC_OPTS},
+        {"pkg": "./pkg/processor", "entry": "VerifC02_Loopback", "reach": ["end"], "opts": dict(_PROC_OPTS, clockfiles="pkg/processor/cleanup.go,pkg/processor/broadcast.go,pkg/processor/observation.go")},
     ],
     "bounds": {"quick": {"histories": "one message M (fully symbolic, 1-byte payload); guardian set n = 1..3, own key at position 0 or 1 (n <= 2: also not a member); every assignment of each other member to {never, before the local observation, after it, both}; own loopback first / last / never; at most one invalid observation (outsider key; member over a decoy digest; outsider signature under a member address) before or after the local observation (thorough adds 117 arbitrary bytes with another digest); a second local observation and second loopback at the end",
-                         "set change": "the C01 set-change scenarios (|A|,|B| <= 2) with the ghost count of distinct relevant members delivered", "governance emitter": "message fully symbolic, n = 3"},
+                         "set change": "the C01 set-change scenarios (|A|,|B| <= 2) with the ghost count of distinct relevant members delivered", "governance emitter": "message fully symbolic, n = 3",
+                         "loopback": "n = 1..2, own key first; inbound observation queue empty or filled to capacity when the message is observed; then a second local observation of the same message"},
                "thorough": {"histories": "n = 1..4 (n = 4: no invalid traffic), own at every position, payload 0..2 bytes for n <= 2"}},
     "outside": "orders of deliveries of different members inside one phase (they are delivered in key order; the handler is order-insensitive by C01's per-step invariant but this is not asserted here); more than one invalid observation per history; more than one aggregation lifetime (expiry then revival is C14's subject); n > 4",
     "assumptions": CHECKS["C01"]["assumptions"],
@@ -254,8 +256,11 @@ CHECKS["C14"] = {
     "runs": [
         {"pkg": "./pkg/processor", "entry": "VerifC14_Tick", "reach": ["deleted", "kept", "retried"], "opts": _PROC_CLOCK_OPTS,
          "shards": {"quick": _c14, "thorough": [x.replace("m.plen=1;", "") for x in _c14]}, "timeout": {"quick": 2400, "thorough": 30000}},
+        # the schedule counts from the first observation: a later re-observation of the message must not postpone it
+        {"pkg": "./pkg/processor", "entry": "VerifC02_Loopback", "reach": ["end"], "opts": _PROC_CLOCK_OPTS},
     ],
-    "bounds": {"quick": {"step": "ONE cleanup tick on ONE aggregation entry of any constructible kind {observed on chain, signatures only, injected}; firstObserved, lastRetry (or never retried) and the tick's clock readings arbitrary non-decreasing instants (64-bit monotonic nanoseconds); retryCount any 32-bit value; submitted/settled any; 0, 1 or 3 recorded signatures; guardian set of 1 or 3; a quorum VAA for the message stored or not; re-observation request queue empty or full",
+    "bounds": {"quick": {"re-observation": "a second local observation of a pending or published message (n = 1..2) leaves firstObserved, lastRetry, retryCount, settled, submitted unchanged",
+                         "step": "ONE cleanup tick on ONE aggregation entry of any constructible kind {observed on chain, signatures only, injected}; firstObserved, lastRetry (or never retried) and the tick's clock readings arbitrary non-decreasing instants (64-bit monotonic nanoseconds); retryCount any 32-bit value; submitted/settled any; 0, 1 or 3 recorded signatures; guardian set of 1 or 3; a quorum VAA for the message stored or not; re-observation request queue empty or full",
                          "unwind": 3000},
                "thorough": {"step": "same, message payload 0..2 bytes"}},
     "outside": "sequences of ticks are covered inductively only through the per-tick obligations (discard-only-with-cause, retry-only-when-due, per-tick progress); several entries per tick (the loop body does not couple entries except through the shared channels, whose capacity is not exhausted by one entry); the Discord notifier (nil); real timers",
